@@ -3,132 +3,335 @@ package main
 import (
 	"fmt"
 	"go/ast"
+	"go/token"
 	"path/filepath"
-	"sort"
 	"strconv"
 	"strings"
 )
 
-// Gen/Policy.v: DefaultRPCPolicy map literal (rpc_policy.go), the RPC method set (exported methods of
-// the *RPCAPI receiver types in rpc_api.go, named through RPCServiceID), and the shape of authF.
+// Gen/Policy.v: the DefaultRPCPolicy map literal (rpc_policy.go) as `policy : list (string * ept)` and the
+// decision function installed by newRPCServer (rpc_api.go, the `authF` literal) as `authf_gen`.
+// Anything the walk cannot follow is an error (the runner then reports the table as not regenerable).
 func init() { register("Policy", genPolicy) }
 
+var eptNames = map[string]string{"RPCClosed": "Closed", "RPCTrusted": "Trusted", "RPCOpen": "Open"}
+
 func genPolicy(repo string) (string, error) {
-	_, pf, err := parseFile(filepath.Join(repo, "rpc_policy.go"))
+	fset, pf, err := parseFile(filepath.Join(repo, "rpc_policy.go"))
 	if err != nil {
 		return "", err
 	}
 	var entries []string
-	found := false
+	found := 0
+	var werr error
 	ast.Inspect(pf, func(n ast.Node) bool {
 		vs, ok := n.(*ast.ValueSpec)
-		if !ok || len(vs.Names) != 1 || vs.Names[0].Name != "DefaultRPCPolicy" || len(vs.Values) != 1 {
-			return true
-		}
-		cl, ok := vs.Values[0].(*ast.CompositeLit)
 		if !ok {
 			return true
 		}
-		found = true
-		for _, e := range cl.Elts {
-			kv, ok := e.(*ast.KeyValueExpr)
+		for i, nm := range vs.Names {
+			if nm.Name != "DefaultRPCPolicy" {
+				continue
+			}
+			found++
+			if len(vs.Values) != len(vs.Names) {
+				werr = fmt.Errorf("DefaultRPCPolicy is not initialised by a literal")
+				return false
+			}
+			cl, ok := vs.Values[i].(*ast.CompositeLit)
 			if !ok {
-				entries = append(entries, "(\"?\", Open)")
-				continue
+				werr = fmt.Errorf("DefaultRPCPolicy is not a composite literal")
+				return false
 			}
-			k, ok1 := kv.Key.(*ast.BasicLit)
-			v, ok2 := kv.Value.(*ast.Ident)
-			if !ok1 || !ok2 {
-				// something the walk cannot follow: emit the most permissive type so obligations fail
-				entries = append(entries, "(\"?\", Open)")
-				continue
+			for _, e := range cl.Elts {
+				kv, ok := e.(*ast.KeyValueExpr)
+				if !ok {
+					werr = fmt.Errorf("%s: policy element is not key: value", fset.Position(e.Pos()))
+					return false
+				}
+				k, ok1 := kv.Key.(*ast.BasicLit)
+				v, ok2 := kv.Value.(*ast.Ident)
+				if !ok1 || k.Kind != token.STRING || !ok2 {
+					werr = fmt.Errorf("%s: policy entry is not \"literal\": RPCxxx", fset.Position(e.Pos()))
+					return false
+				}
+				key, err := strconv.Unquote(k.Value)
+				if err != nil {
+					werr = err
+					return false
+				}
+				t := eptNames[v.Name]
+				if t == "" {
+					werr = fmt.Errorf("%s: unknown endpoint type %s", fset.Position(e.Pos()), v.Name)
+					return false
+				}
+				entries = append(entries, fmt.Sprintf("(%s, %s)", coqStr(key), t))
 			}
-			key, _ := strconv.Unquote(k.Value)
-			t := map[string]string{"RPCClosed": "Closed", "RPCTrusted": "Trusted", "RPCOpen": "Open"}[v.Name]
-			if t == "" {
-				t = "Open"
-			}
-			entries = append(entries, fmt.Sprintf("(%s, %s)", coqStr(key), t))
 		}
-		return false
+		return true
 	})
-	if !found {
-		return "", fmt.Errorf("DefaultRPCPolicy literal not found")
+	if werr != nil {
+		return "", werr
 	}
-	_, af, err := parseFile(filepath.Join(repo, "rpc_api.go"))
+	if found != 1 {
+		return "", fmt.Errorf("DefaultRPCPolicy literal found %d times in rpc_policy.go", found)
+	}
+	// any other assignment to DefaultRPCPolicy / to an element of it in the root package would make the literal stale
+	files, err := filepath.Glob(filepath.Join(repo, "*.go"))
 	if err != nil {
 		return "", err
 	}
-	// RPCServiceID type switch: receiver type -> service name
-	svc := map[string]string{}
-	ast.Inspect(af, func(n ast.Node) bool {
-		fd, ok := n.(*ast.FuncDecl)
-		if !ok || fd.Name.Name != "RPCServiceID" {
-			return true
+	for _, fn := range files {
+		if strings.HasSuffix(fn, "_test.go") {
+			continue
 		}
-		ast.Inspect(fd.Body, func(m ast.Node) bool {
-			cc, ok := m.(*ast.CaseClause)
-			if !ok || len(cc.List) != 1 || len(cc.Body) != 1 {
+		fs2, f, err := parseFile(fn)
+		if err != nil {
+			return "", err
+		}
+		ast.Inspect(f, func(n ast.Node) bool {
+			as, ok := n.(*ast.AssignStmt)
+			if !ok {
 				return true
 			}
-			st, ok1 := cc.List[0].(*ast.StarExpr)
-			rs, ok2 := cc.Body[0].(*ast.ReturnStmt)
-			if !ok1 || !ok2 || len(rs.Results) != 1 {
-				return true
-			}
-			id, ok3 := st.X.(*ast.Ident)
-			lit, ok4 := rs.Results[0].(*ast.BasicLit)
-			if ok3 && ok4 {
-				s, _ := strconv.Unquote(lit.Value)
-				svc[id.Name] = s
-			}
-			return true
-		})
-		return false
-	})
-	var methods []string
-	for _, d := range af.Decls {
-		fd, ok := d.(*ast.FuncDecl)
-		if !ok || fd.Recv == nil || len(fd.Recv.List) != 1 || !fd.Name.IsExported() {
-			continue
-		}
-		st, ok := fd.Recv.List[0].Type.(*ast.StarExpr)
-		if !ok {
-			continue
-		}
-		id, ok := st.X.(*ast.Ident)
-		if !ok {
-			continue
-		}
-		s, ok := svc[id.Name]
-		if !ok {
-			continue
-		}
-		methods = append(methods, s+"."+fd.Name.Name)
-	}
-	sort.Strings(methods)
-	// the services registered by newRPCServer (RegisterName(RPCServiceID(x), x))
-	nreg := 0
-	ast.Inspect(af, func(n ast.Node) bool {
-		fd, ok := n.(*ast.FuncDecl)
-		if !ok || fd.Name.Name != "newRPCServer" {
-			return true
-		}
-		ast.Inspect(fd.Body, func(m ast.Node) bool {
-			if ce, ok := m.(*ast.CallExpr); ok {
-				if se, ok := ce.Fun.(*ast.SelectorExpr); ok && se.Sel.Name == "RegisterName" {
-					nreg++
+			for _, l := range as.Lhs {
+				if mentions(l, "DefaultRPCPolicy") {
+					werr = fmt.Errorf("%s: DefaultRPCPolicy is written outside its literal", fs2.Position(as.Pos()))
 				}
 			}
 			return true
 		})
-		return false
-	})
+	}
+	if werr != nil {
+		return "", werr
+	}
+
+	authf, err := genAuthF(repo)
+	if err != nil {
+		return "", err
+	}
 	var b strings.Builder
 	b.WriteString(genHeader)
 	b.WriteString("From V Require Import Base.Rpc.\n\n")
 	b.WriteString("Definition policy : list (string * ept) := [\n  " + strings.Join(entries, ";\n  ") + "\n].\n\n")
-	b.WriteString("Definition rpc_methods : list string := " + coqStrList(methods) + ".\n\n")
-	b.WriteString(fmt.Sprintf("Definition registered_services : nat := %d.\nDefinition known_services : nat := %d.\n", nreg, len(svc)))
+	b.WriteString(authf)
 	return b.String(), nil
+}
+
+func mentions(e ast.Expr, name string) bool {
+	r := false
+	ast.Inspect(e, func(n ast.Node) bool {
+		if id, ok := n.(*ast.Ident); ok && id.Name == name {
+			r = true
+		}
+		return true
+	})
+	return r
+}
+
+// genAuthF follows exactly this shape of the literal assigned to `authF` in newRPCServer:
+//
+//	func(pid peer.ID, svc, method string) bool {
+//		t, ok := c.config.RPCPolicy[svc+"."+method]
+//		if !ok { return <bool> }
+//		switch t { case RPCxxx[, ...]: return <r> ... default: return <r> }
+//	}
+//
+// where <r> is true, false or <something>.IsTrustedPeer(<ctx>, pid). It also requires that the literal is
+// what is handed to rpc.WithAuthorizeFunc at every rpc.NewServer call of newRPCServer.
+func genAuthF(repo string) (string, error) {
+	fset, af, err := parseFile(filepath.Join(repo, "rpc_api.go"))
+	if err != nil {
+		return "", err
+	}
+	var fn *ast.FuncDecl
+	for _, d := range af.Decls {
+		if fd, ok := d.(*ast.FuncDecl); ok && fd.Recv == nil && fd.Name.Name == "newRPCServer" {
+			fn = fd
+		}
+	}
+	if fn == nil {
+		return "", fmt.Errorf("newRPCServer not found in rpc_api.go")
+	}
+	var lit *ast.FuncLit
+	nAssign := 0
+	ast.Inspect(fn.Body, func(n ast.Node) bool {
+		as, ok := n.(*ast.AssignStmt)
+		if !ok {
+			return true
+		}
+		for i, l := range as.Lhs {
+			if id, ok := l.(*ast.Ident); ok && id.Name == "authF" {
+				nAssign++
+				if len(as.Rhs) == len(as.Lhs) {
+					lit, _ = as.Rhs[i].(*ast.FuncLit)
+				}
+			}
+		}
+		return true
+	})
+	if nAssign != 1 || lit == nil {
+		return "", fmt.Errorf("newRPCServer: authF is not assigned exactly once from a function literal")
+	}
+	// every rpc.NewServer call carries rpc.WithAuthorizeFunc(authF)
+	nServers, nWith := 0, 0
+	ast.Inspect(fn.Body, func(n ast.Node) bool {
+		ce, ok := n.(*ast.CallExpr)
+		if !ok {
+			return true
+		}
+		se, ok := ce.Fun.(*ast.SelectorExpr)
+		if !ok || se.Sel.Name != "NewServer" {
+			return true
+		}
+		nServers++
+		for _, a := range ce.Args {
+			if c2, ok := a.(*ast.CallExpr); ok {
+				if s2, ok := c2.Fun.(*ast.SelectorExpr); ok && s2.Sel.Name == "WithAuthorizeFunc" && len(c2.Args) == 1 {
+					if id, ok := c2.Args[0].(*ast.Ident); ok && id.Name == "authF" {
+						nWith++
+					}
+				}
+			}
+		}
+		return true
+	})
+	if nServers == 0 || nServers != nWith {
+		return "", fmt.Errorf("newRPCServer: %d rpc.NewServer calls but %d carry rpc.WithAuthorizeFunc(authF)", nServers, nWith)
+	}
+	// parameters
+	var params []string
+	for _, f := range lit.Type.Params.List {
+		for _, n := range f.Names {
+			params = append(params, n.Name)
+		}
+	}
+	if len(params) != 3 {
+		return "", fmt.Errorf("authF: expected 3 named parameters")
+	}
+	pid, svc, method := params[0], params[1], params[2]
+	st := lit.Body.List
+	if len(st) != 3 {
+		return "", fmt.Errorf("%s: authF body has %d statements, expected lookup; if !ok; switch", fset.Position(lit.Pos()), len(st))
+	}
+	// 1. t, ok := <...>.RPCPolicy[svc+"."+method]
+	as, ok := st[0].(*ast.AssignStmt)
+	if !ok || len(as.Lhs) != 2 || len(as.Rhs) != 1 {
+		return "", fmt.Errorf("authF: first statement is not a two-value map lookup")
+	}
+	tv, ok1 := as.Lhs[0].(*ast.Ident)
+	okv, ok2 := as.Lhs[1].(*ast.Ident)
+	ix, ok3 := as.Rhs[0].(*ast.IndexExpr)
+	if !ok1 || !ok2 || !ok3 {
+		return "", fmt.Errorf("authF: first statement is not a two-value map lookup")
+	}
+	if sel, ok := ix.X.(*ast.SelectorExpr); !ok || sel.Sel.Name != "RPCPolicy" {
+		return "", fmt.Errorf("authF: the map looked up is not <config>.RPCPolicy")
+	}
+	if !isSvcDotMethod(ix.Index, svc, method) {
+		return "", fmt.Errorf("authF: the lookup key is not %s+\".\"+%s", svc, method)
+	}
+	// 2. if !ok { return <bool> }
+	ifs, ok := st[1].(*ast.IfStmt)
+	if !ok || ifs.Init != nil || ifs.Else != nil || len(ifs.Body.List) != 1 {
+		return "", fmt.Errorf("authF: second statement is not `if !ok { return ... }`")
+	}
+	un, ok := ifs.Cond.(*ast.UnaryExpr)
+	if !ok || un.Op != token.NOT {
+		return "", fmt.Errorf("authF: second statement does not test !ok")
+	}
+	if id, ok := un.X.(*ast.Ident); !ok || id.Name != okv.Name {
+		return "", fmt.Errorf("authF: second statement does not test !ok")
+	}
+	missing, err := authRet(ifs.Body.List[0], pid)
+	if err != nil {
+		return "", err
+	}
+	// 3. switch t { ... }
+	sw, ok := st[2].(*ast.SwitchStmt)
+	if !ok || sw.Init != nil {
+		return "", fmt.Errorf("authF: third statement is not a switch")
+	}
+	if id, ok := sw.Tag.(*ast.Ident); !ok || id.Name != tv.Name {
+		return "", fmt.Errorf("authF: the switch is not on the looked-up endpoint type")
+	}
+	res := map[string]string{}
+	def := ""
+	for _, c := range sw.Body.List {
+		cc := c.(*ast.CaseClause)
+		if len(cc.Body) != 1 {
+			return "", fmt.Errorf("%s: authF: a case body is not a single return", fset.Position(cc.Pos()))
+		}
+		r, err := authRet(cc.Body[0], pid)
+		if err != nil {
+			return "", err
+		}
+		if cc.List == nil {
+			def = r
+			continue
+		}
+		for _, e := range cc.List {
+			id, ok := e.(*ast.Ident)
+			if !ok || eptNames[id.Name] == "" {
+				return "", fmt.Errorf("%s: authF: case label is not an RPC endpoint type", fset.Position(e.Pos()))
+			}
+			if _, dup := res[eptNames[id.Name]]; !dup {
+				res[eptNames[id.Name]] = r
+			}
+		}
+	}
+	var b strings.Builder
+	b.WriteString("(* authF of newRPCServer: entry found in the policy map (or not) and consensus.IsTrustedPeer(caller) -> allow *)\n")
+	b.WriteString("Definition authf_gen (e : option ept) (trusted : bool) : bool :=\n  match e with\n")
+	b.WriteString("  | None => " + missing + "\n")
+	for _, t := range []string{"Closed", "Trusted", "Open"} {
+		r, ok := res[t]
+		if !ok {
+			r = def
+		}
+		if r == "" {
+			return "", fmt.Errorf("authF: no case and no default covers %s", t)
+		}
+		b.WriteString("  | Some " + t + " => " + r + "\n")
+	}
+	b.WriteString("  end.\n")
+	return b.String(), nil
+}
+
+func isSvcDotMethod(e ast.Expr, svc, method string) bool {
+	b1, ok := e.(*ast.BinaryExpr)
+	if !ok || b1.Op != token.ADD {
+		return false
+	}
+	m, ok := b1.Y.(*ast.Ident)
+	if !ok || m.Name != method {
+		return false
+	}
+	b2, ok := b1.X.(*ast.BinaryExpr)
+	if !ok || b2.Op != token.ADD {
+		return false
+	}
+	s, ok1 := b2.X.(*ast.Ident)
+	dot, ok2 := b2.Y.(*ast.BasicLit)
+	return ok1 && ok2 && s.Name == svc && dot.Value == "\".\""
+}
+
+func authRet(s ast.Stmt, pid string) (string, error) {
+	rs, ok := s.(*ast.ReturnStmt)
+	if !ok || len(rs.Results) != 1 {
+		return "", fmt.Errorf("authF: statement is not a single-value return")
+	}
+	switch e := rs.Results[0].(type) {
+	case *ast.Ident:
+		if e.Name == "true" || e.Name == "false" {
+			return e.Name, nil
+		}
+	case *ast.CallExpr:
+		if se, ok := e.Fun.(*ast.SelectorExpr); ok && se.Sel.Name == "IsTrustedPeer" && len(e.Args) == 2 {
+			if id, ok := e.Args[1].(*ast.Ident); ok && id.Name == pid {
+				return "trusted", nil
+			}
+		}
+	}
+	return "", fmt.Errorf("authF: a return value is neither true, false nor IsTrustedPeer(ctx, %s)", pid)
 }
